@@ -66,6 +66,7 @@ PROPS = {
             "parts": [{"engine": "hdr", "test": "TestVF_C14_Header", "quick": (4, 4000), "thorough": (16, 50000)},
                       {"engine": "e2e", "test": "TestVF_C14_Socket", "quick": (4, 50), "thorough": (16, 400), "shrinktime": "10s"},
                       {"engine": "e2e", "test": "TestVF_C14_Reconnects", "quick": (2, 10), "thorough": (8, 60), "shrinktime": "10s"},
+                      {"engine": "e2e", "test": "TestVF_C14_Silence", "quick": (3, 1), "thorough": (4, 1), "thorough_env": {"VERIF_SILENCE_S": 65}, "shrinktime": "1s"},
                       {"engine": "lpd", "test": "TestVF_C14_Leptond", "kind": "plain"},
                       {"engine": "hdr", "test": "FuzzVF_C14_Header", "kind": "fuzz", "tiers": ["thorough"], "thorough_secs": 90}]},
     "C15": {"level": "exploration", "assumptions": BASE_ASSUME + ["background and threshold are read in-package from the detector; threshold tolerance +-1 for float accumulation"],
@@ -86,6 +87,7 @@ PROPS = {
                       {"engine": "e2e", "test": "TestVF_C17_E2E", "quick": (4, 40), "thorough": (16, 250), "shrinktime": "10s"}]},
     "C18": {"level": "exploration", "assumptions": BASE_ASSUME + ["the harness does not own the scheduler: relative speeds of reader and writer are perturbed through GOMAXPROCS, CPU-burning goroutines, sender pacing and chunking; the race detector reports races on executions that occur", "one connection per output directory (file names have one-second resolution)"],
             "parts": [{"engine": "tw", "race": True, "test": "TestVF_C18", "quick": (8, 16), "thorough": (16, 120), "shrinktime": "15s", "quick_timeout": 600},
+                      {"engine": "tw", "race": True, "test": "TestVF_C18_Stall", "quick": (3, 1), "thorough": (4, 1), "thorough_env": {"VERIF_SILENCE_S": 65}, "shrinktime": "1s"},
                       {"engine": "tw", "race": True, "test": "TestVF_C18_Rotation", "kind": "plain", "tiers": ["thorough"]},
                       {"engine": "tw", "race": True, "test": "TestVF_C18_Reconnects", "kind": "plain", "tiers": ["thorough"]}]},
     "C19": {
